@@ -1,0 +1,33 @@
+//go:build verif
+// +build verif
+
+package tmutex
+
+import "sync/atomic"
+
+// Schedule-point identifiers passed to VerifPoint (compiled only with the
+// "verif" build tag).
+const (
+	VerifPtLockAdd     = 1 // Lock: before the uncontended AddInt32
+	VerifPtLockRecheck = 2 // Lock: before the Load/Swap re-check
+	VerifPtLockRecv    = 3 // Lock: before receiving from the channel
+	VerifPtTryLoad     = 4 // TryLock: before the load
+	VerifPtTryCAS      = 5 // TryLock: before the compare-and-swap
+	VerifPtUnlockSwap  = 6 // Unlock: before the swap
+	VerifPtUnlockSend  = 7 // Unlock: before the non-blocking send
+)
+
+// VerifPoint, when non-nil, is called at every schedule point. It must be set
+// before any Mutex is used and not changed afterwards.
+var VerifPoint func(id int, m *Mutex)
+
+func verifPoint(id int, m *Mutex) {
+	if f := VerifPoint; f != nil {
+		f(id, m)
+	}
+}
+
+// VerifState returns the mutex word and the number of wake-up tokens queued.
+func (m *Mutex) VerifState() (v int32, tokens int) {
+	return atomic.LoadInt32(&m.v), len(m.ch)
+}
